@@ -22,12 +22,12 @@ confirm)
   ( cd "$wt" && git apply --check "$src/patch.diff" ) >>"$log" 2>&1 || { echo "patch does not apply" >>"$log"; ok=0; }
   if [ $ok = 1 ]; then
     echo "== demo on the unchanged tree (must pass)" >>"$log"
-    ( cd "$src/demo" && timeout 900 bash ./run.sh "$wt" ) >>"$log" 2>&1; rc=$?
+    ( cd "$src/demo" && timeout 900 bash "$src/demo/run.sh" "$wt" ) >>"$log" 2>&1; rc=$?
     echo "rc=$rc" >>"$log"; [ $rc = 0 ] || ok=0
     ( cd "$wt" && git checkout -q -- . && git clean -fdq )
     ( cd "$wt" && git apply "$src/patch.diff" && go build ./... && go vet ./leveldb/... ) >>"$log" 2>&1 || { echo "build/vet failed" >>"$log"; ok=0; }
     echo "== demo with the change (must fail)" >>"$log"
-    ( cd "$src/demo" && timeout 900 bash ./run.sh "$wt" ) >>"$log" 2>&1; rc=$?
+    ( cd "$src/demo" && timeout 900 bash "$src/demo/run.sh" "$wt" ) >>"$log" 2>&1; rc=$?
     echo "rc=$rc" >>"$log"; [ $rc != 0 ] || ok=0
     ( cd "$wt" && git clean -fdq )
     echo "== repository suite with the change (must pass)" >>"$log"
